@@ -38,7 +38,8 @@ theorem commit_cases (r : Repo) (id : Str) (m : Meta) (keep : Digest → List CP
       ∀ id', id' ≠ id → AL.get (commit r id m keep hasRoot).2.staged id' = AL.get r.staged id') ∨
     (∃ o, AL.get r.staged id = some o ∧ o.inv.keepAdmissible keep = true ∧
       ((AL.get r.main id = none ∧ (prepareCommit o m keep).inv.head.number = 1 ∧ hasRoot = true) ∨
-       (∃ old, AL.get r.main id = some old ∧ old.inv.head.number + 1 = (prepareCommit o m keep).inv.head.number)) ∧
+       (∃ old, AL.get r.main id = some old ∧ old.inv.head.number + 1 = (prepareCommit o m keep).inv.head.number ∧
+          continuesHistory (prepareCommit o m keep).inv old.inv = true)) ∧
       (commit r id m keep hasRoot).1 = .ok () ∧
       (commit r id m keep hasRoot).2 =
         { repoSpec := r.repoSpec,
@@ -76,8 +77,13 @@ theorem commit_cases (r : Repo) (id : Str) (m : Meta) (keep : Digest → List CP
           simp only
           by_cases hh : old.inv.head.number + 1 = (prepareCommit o m keep).inv.head.number
           · simp only [hh, ne_eq, not_true_eq_false, if_false]
-            right
-            exact ⟨o, rfl, hk, Or.inr ⟨old, rfl, hh⟩, rfl, by simp [saveStaged]⟩
+            by_cases hc : continuesHistory (prepareCommit o m keep).inv old.inv = true
+            · simp only [hc, Bool.not_true, Bool.false_eq_true, if_false]
+              right
+              exact ⟨o, rfl, hk, Or.inr ⟨old, by first | rfl | trivial, hh, hc⟩, by first | rfl | simp [hc], by simp [saveStaged]⟩
+            · have hc' : continuesHistory (prepareCommit o m keep).inv old.inv = false := by simpa using hc
+              simp only [hc', Bool.not_false, if_true]
+              left; first | exact ⟨_, rfl, rfl, rfl, fun _ _ => rfl⟩ | exact ⟨_, rfl, rfl, rfl, fun id' hne => AL.get_insert_ne _ _ _ _ hne⟩
           · simp only [hh, ne_eq, not_false_eq_true, if_true]
             left; first | exact ⟨_, rfl, rfl, rfl, fun _ _ => rfl⟩ | exact ⟨_, rfl, rfl, rfl, fun id' hne => AL.get_insert_ne _ _ _ _ hne⟩
     · have hk' : o.inv.keepAdmissible keep = false := by simpa using hk
